@@ -66,7 +66,22 @@ func randRem(r *RNG) string {
 }
 
 // clientPosition: a position to ask a move for, its size, and a label for the distribution
+// clientPosition: a position the engine can be asked about - finished, or with at least one legal move (a constructed
+// board on which the game is not over but NO move is legal, e.g. ply 1 with the opponent's flats exhausted, is outside
+// every property's domain: no engine can answer it)
 func clientPosition(r *RNG, size int) (*tak.Position, string) {
+	for tries := 0; ; tries++ {
+		p, lab := clientPosition0(r, size)
+		if over, _ := p.GameOver(); over || len(legalMoves(p)) > 0 || tries > 20 {
+			if tries > 20 {
+				return tak.New(tak.Config{Size: size}), "startpos"
+			}
+			return p, lab
+		}
+	}
+}
+
+func clientPosition0(r *RNG, size int) (*tak.Position, string) {
 	switch x := r.Intn(20); {
 	case x < 2:
 		return tak.New(tak.Config{Size: size}), "startpos"
